@@ -1,8 +1,8 @@
 (* C07: classical expressions and typed assignments evaluate to their OpenQASM values.
    Statements only; proofs in Lang/ExprProofs.v.  OPERATOR_MAP is regenerated from maps.py on
    every run, so the operator theorem is re-proved against the table the code has now. *)
-From Coq Require Import ZArith List Bool String.
-From Verif Require Import BGate PyVal Ast State GatesGen Unroll Spec ExprProofs.
+From Coq Require Import ZArith List Bool String PrimFloat.
+From Verif Require Import BGate PyVal Ast State GatesGen Unroll Spec ExprProofs CastGen CastProofs.
 Import ListNotations.
 Open Scope Z_scope.
 
@@ -63,10 +63,38 @@ Theorem C07_compound_assignment_operators s :
 Proof. exact (compound_assign_operators s). Qed.
 Print Assumptions C07_compound_assignment_operators.
 
+(* the conversion and range check as the source has them NOW: CastGen.v is regenerated on every run from
+   maps.qasm_variable_type_cast and validator.validate_variable_assignment_value (translator/cast2coq.py);
+   it computes the same function as cast_value, so the store theorems above are about that code *)
+Theorem C07_store_is_the_source_s_store k size v :
+  (forall n, size = Some n -> 1 <= n) -> cast_value_gen k size v = cast_value k size v.
+Proof. exact (cast_value_gen_eq k size v). Qed.
+Print Assumptions C07_store_is_the_source_s_store.
+
+Theorem C07_source_uint_store_is_mod n z : 1 <= n ->
+  cast_value_gen KUint (Some n) (VInt z) = Ok (VInt (z mod 2 ^ n)) /\ 0 <= z mod 2 ^ n < 2 ^ n.
+Proof.
+  intros Hn. rewrite cast_value_gen_eq by (intros m Hm; inversion Hm; subst; exact Hn). exact (store_uint_mod n z Hn).
+Qed.
+Print Assumptions C07_source_uint_store_is_mod.
+
+Theorem C07_source_int_store_out_of_range n z : 1 <= n -> (z < - 2 ^ (n - 1) \/ 2 ^ (n - 1) - 1 < z) ->
+  cast_value_gen KInt (Some n) (VInt z) = Err EValidation.
+Proof.
+  intros Hn Hr. rewrite cast_value_gen_eq by (intros m Hm; inversion Hm; subst; exact Hn). exact (store_int_out_of_range n z Hn Hr).
+Qed.
+Print Assumptions C07_source_int_store_out_of_range.
+
+Theorem C07_source_bool_store v sz : v <> VNone -> cast_value_gen KBool sz v = Ok (VBool (truthy v)).
+Proof. intros Hv. destruct v; try reflexivity. congruence. Qed.
+Print Assumptions C07_source_bool_store.
+
 (* non-vacuity and the boundary cases named in the property *)
 Example C07_examples :
   cast_value KUint (Some 4) (VInt 17) = Ok (VInt 1) /\ cast_value KUint (Some 4) (VInt (-1)) = Ok (VInt 15) /\
   cast_value KInt (Some 4) (VInt (-8)) = Ok (VInt (-8)) /\ cast_value KInt (Some 4) (VInt 8) = Err EValidation /\
+  cast_value_gen KInt (Some 4) (VInt (-8)) = Ok (VInt (-8)) /\ cast_value_gen KInt (Some 4) (VInt (-9)) = Err EValidation /\
+  cast_value_gen KBool None (VFloat 0.5%float) = Ok (VBool true) /\ cast_value_gen KInt (Some 8) (VBool true) = Ok (VInt 1) /\
   spec_binop "&&" (VInt 3) (VInt 5) = Ok (VBool true) /\ py_binop OpLAnd (VInt 3) (VInt 5) = Ok (VBool true) /\
   spec_binop "+" (VBool true) (VBool true) = Ok (VInt 2).
 Proof. vm_compute. repeat split; reflexivity. Qed.
